@@ -170,6 +170,27 @@ def check_property(a):
         seen_kf.add(kf['id'])
         lines.append('KNOWN-FINDING: property=%s %s' % (prop, kf['what']))
 
+    # bounded native stand-ins (labelled bounded, never counted as proved); a failure there is a failing input on the real code
+    bounded_runs = []
+    for cmd in (meta.get('bounded_cmds') or {}).get(tier if tier in ('quick', 'thorough') else 'quick', []):
+        import subprocess
+        tb = time.time()
+        try:
+            p_ = subprocess.run(['/venv/bin/python', os.path.join(VERIF, cmd[0]), REPO] + cmd[1:], capture_output=True, text=True, timeout=1800)
+            out, rc = (p_.stdout + p_.stderr).strip().splitlines(), p_.returncode
+        except Exception as e:      # pragma: no cover
+            out, rc = ['%s' % e], 3
+        bounded_runs.append({'cmd': ' '.join(cmd), 'exit': rc, 'last_line': out[-1] if out else '', 'wall_s': round(time.time() - tb, 1), 'label': 'bounded'})
+        if rc == 1:
+            os.makedirs(os.path.join(VERIF, 'replays'), exist_ok=True)
+            rp = os.path.join(VERIF, 'replays', '%s-bounded-%s.json' % (prop, os.path.basename(cmd[0]).split('.')[0]))
+            json.dump({'property': prop, 'kind': 'bounded native run', 'cmd': '/venv/bin/python %s %s %s' % (cmd[0], REPO, ' '.join(cmd[1:])),
+                       'output': out[-25:], 'failing_input_found': True}, open(rp, 'w'), indent=1)
+            lines.append('VIOLATION property=%s replay=%s bounded-native-run=%s' % (prop, rp, cmd[0]))
+            exit_code = EXIT_VIOLATION if exit_code in (EXIT_OK, EXIT_UNDECIDED) else exit_code
+        elif rc != 0 and exit_code == EXIT_OK:
+            lines.append('CHECKER-ERROR bounded run %s exit %d' % (cmd[0], rc))
+            exit_code = EXIT_ERROR
     # evidence
     by_backend = {}
     for o in proved:
@@ -220,6 +241,7 @@ def check_property(a):
         'known_findings_seen': sorted(seen_kf),
         'out_of_scope': meta.get('out_of_scope', []),
         'bounded': meta.get('bounded', []),
+        'bounded_runs': bounded_runs,
         'samples': samples,
         'repo_root': REPO,
     }
